@@ -58,6 +58,9 @@ def prove(ctx):
         # bitvector.py, then re-prove GenProofs/EnumBridge.v (generated code =
         # model) and the statements built on it
         notes = enum_gen.ensure_enum(ctx)
+        ctx.checker_cmds.append(
+            'PYTHONPATH=tools python3 tools/vlib/enum_gen.py > '
+            'coq/gen/EnumGen.v (translator tools/py2coq_enum.py)')
         ctx.prove_with_deps('Properties/C07.v')
     ctx.extra['translation'] = dict(
         sources=enum_gen.SOURCES, functions=enum_gen.FUNCTIONS,
